@@ -35,6 +35,23 @@ PROPS = {
         "assumptions": ["fault model of the reader: the stream fails (error or clean truncation) at a byte offset; fh.Close() errors inside Unpack cannot be injected through an io.Reader and are outside the property's fault model"],
         "explanation": "Unpack part: C12_unpack_ok_complete (a run that reports success did everything the fault-free run does, for every fault position), C12_unpack_header_fault_reported, C12_unpack_body_fault_reported, C12_fault_never_illegal / C12_illegal_has_culprit (policy rejections are distinguishable and have a culprit entry). Tie: 'unpack-faults' lane cuts the tar stream at every position (mapped to the model's fault by decoding with archive/tar) and compares full filesystem dumps; gzip-level read errors/truncations are judged by the oracle (success => fully materialised).",
     },
+    "C08": {
+        "lanes": [
+            {"lane": "builder", "quick": 1500, "thorough": 40000},
+        ],
+        "trusted_base": [BUILDERMODEL],
+        "assumptions": ["lookups (LocalPathFor*) and the content of package directories are checked by the lane's oracle against the scripted world; the model's final tables are compared with the bundle's accessors"],
+        "explanation": "C08_closure (error-free run: every artefact of the order-free reachability closure Reach is analysed and its package stored under its fetched content), C08_sound (every analysed artefact is reachable, for any run), C08_exact, C08_nothing_pending, C08_registry_same_place / C08_registry_lookup (a registry source is queued as the registry's answer joined with the caller's sub-path), C08_meta_kept. Tie: 'builder' lane: full call-log and final-table comparison; oracle = reference closure computed in Go from the scripted world + every lookup + file contents + metadata.",
+    },
+    "C13": {
+        "lanes": [
+            {"lane": "builder-order", "quick": 60, "thorough": 1500},
+            {"lane": "builder-order", "thorough": 40, "race": True},
+        ],
+        "trusted_base": [BUILDERMODEL, "encoding/json + sort: the manifest is a function of the final tables (sections sorted by printed address); checked by byte comparison on the lane, not modelled"],
+        "assumptions": ["interleavings below the granularity of the builder's mutex (Go memory model) cannot be exhibited by the model: covered by the supporting -race run in the thorough tier only (partial)"],
+        "explanation": "C13_order (permuting the Add calls of an error-free build leaves analysed set, package directories, metadata, resolved versions and deprecations unchanged), C13_clean_same / C13_clean_order (error-freeness itself is order independent), C13_dirs_spec / C13_resolved_spec / C13_deprec_spec (order-free characterisation of each table), C13_coalesce (same directory iff same fetched content). Tie: 'builder-order' lane builds every permutation (exhaustive up to 4 calls) and a concurrent run, compares manifest bytes, ChecksumV1 and directory listing, and compares each permutation with the model.",
+    },
     "C14": {
         "lanes": [
             {"lane": "builder", "quick": 1500, "thorough": 40000},
